@@ -1164,7 +1164,9 @@ func muxAutoSweep(r *Rng, tier string, target int) (int, []muxOp) {
 	g.setPCR(true)
 	g.tables()
 	for _, pid := range append([]uint16{}, g.pids...) {
-		g.data(pid, nil, 100)
+		if pid >= 0x20 && pid < 0x1fff && pid != 0x1000 { // units only on PIDs of the properties' domain (S2)
+			g.data(pid, nil, 100)
+		}
 	}
 	for len(g.pids) > 6 {
 		g.remove(true)
@@ -1172,8 +1174,12 @@ func muxAutoSweep(r *Rng, tier string, target int) (int, []muxOp) {
 	if !g.has(g.pcr) {
 		g.setPCR(true)
 	}
-	pid, _ := g.anyPID()
-	g.data(pid, nil, 100)
+	for _, pid := range g.pids {
+		if pid >= 0x20 && pid < 0x1fff && pid != 0x1000 {
+			g.data(pid, nil, 100)
+			break
+		}
+	}
 	return 3, g.ops
 }
 
